@@ -15,6 +15,8 @@ import (
 	"time"
 
 	"github.com/alicebob/miniredis/v2"
+	tlog "github.com/tetratelabs/log"
+	"github.com/tetratelabs/telemetry"
 	corev3 "github.com/envoyproxy/go-control-plane/envoy/config/core/v3"
 	envoy "github.com/envoyproxy/go-control-plane/envoy/service/auth/v3"
 	"google.golang.org/protobuf/encoding/protojson"
@@ -536,7 +538,11 @@ func (d *driver) setup(spec CfgSpec) error {
 		})
 		d.rec.addSecret(f.ClientSecret, "clientSecret")
 	}
-	doc := map[string]any{"listen_address": "127.0.0.1", "listen_port": 10003, "log_level": "error",
+	logLevel := spec.LogLevel
+	if logLevel == "" {
+		logLevel = "error"
+	}
+	doc := map[string]any{"listen_address": "127.0.0.1", "listen_port": 10003, "log_level": logLevel,
 		"chains": chains, "allow_unmatched_requests": spec.AllowUnmatched}
 	if defaultOIDC != nil {
 		doc["default_oidc_config"] = defaultOIDC
@@ -563,12 +569,19 @@ func (d *driver) setup(spec CfgSpec) error {
 	// assembled as cmd/main.go does: the units are constructed around the configuration object while it is still empty, the
 	// loaded configuration arrives in that very object afterwards, then the PreRun steps run
 	e.cfgFile, e.cfg = cf, &configv1.Config{}
+	logging := internal.NewLogSystem(quietLogger(), e.cfg) // first, as in main: the units below take their loggers from it
 	tlsPool := internal.NewTLSConfigPool(ctx)
 	jw := oidc.NewJWKSProvider(e.cfg, tlsPool)
 	fac := oidc.NewSessionStoreFactory(e.cfg)
 	e.factory = &spyFactory{d: d, real: fac, spies: map[oidc.SessionStore]*spyStore{}}
 	e.filter = server.NewExtAuthZFilter(e.cfg, tlsPool, &spyJWKS{d: d, real: jw}, e.factory)
 	proto.Merge(e.cfg, &cf.Config)
+	if pr, ok := logging.(interface{ PreRun() error }); ok {
+		_ = pr.PreRun() // applies log_level
+	}
+	if internal.Logger(internal.Config).Level() == telemetry.LevelDebug {
+		_ = internal.ConfigToJSONString(e.cfg) // main's "config-log" step
+	}
 	startUnit(ctx, jw)
 	if err := fac.PreRun(); err != nil {
 		cancel()
@@ -1382,4 +1395,23 @@ func applyEnvelope(env string, req *envoy.CheckRequest) {
 	default:
 		panic("unknown request envelope " + env)
 	}
+}
+
+
+// quietLogger is the logger cmd/main.go uses (tetratelabs/log), writing to /dev/null instead of the standard output.
+var (
+	devnullOnce sync.Once
+	devnull     *os.File
+)
+
+func quietLogger() telemetry.Logger {
+	devnullOnce.Do(func() { devnull, _ = os.OpenFile(os.DevNull, os.O_WRONLY, 0) })
+	if devnull == nil {
+		return tlog.New()
+	}
+	saved := os.Stdout
+	os.Stdout = devnull
+	l := tlog.New() // (keeps the writer it finds in os.Stdout now)
+	os.Stdout = saved
+	return l
 }
